@@ -66,13 +66,22 @@ DATA_FILES = {"small.xml": XML_SMALL, "small.xsl": XSL_SMALL, "pi.xml": XML_PI}
 CORPUS = os.path.join(ROOT, "corpus", "c19")        # stylesheets that xsl:import / xsl:include each other (need files: href is relative)
 
 
-def write_data(wd):
-    d = os.path.join(wd, "data")
-    os.makedirs(d, exist_ok=True)
-    for n, t in DATA_FILES.items():
-        open(os.path.join(d, n), "w").write(t)
+DATA_DIR = os.path.join(vlib.WORK, "c19-data")       # ONE fixed path: file names reach the library (system ids are hashed
+                                                     # and copied), so a per-run path would make the allocation sequence vary
+
+
+def write_data(wd=None):
+    os.makedirs(DATA_DIR, exist_ok=True)
+    files = dict(DATA_FILES)
     for n in sorted(os.listdir(CORPUS)):
-        open(os.path.join(d, n), "w").write(open(os.path.join(CORPUS, n)).read())
+        files[n] = open(os.path.join(CORPUS, n)).read()
+    for n, t in files.items():
+        p = os.path.join(DATA_DIR, n)
+        if not os.path.exists(p) or open(p).read() != t:
+            tmp = "%s.%d.tmp" % (p, os.getpid())
+            open(tmp, "w").write(t)
+            os.replace(tmp, p)
+
 
 CREATE, DESTROY = {"api": "create"}, {"api": "destroy"}
 
@@ -214,7 +223,7 @@ def run_cases(exe, cases, wd, tag, mode, timeout):
     os.makedirs(out, exist_ok=True)
     cpath = os.path.join(wd, "cases-%s.ndjson" % tag)
     vlib.write_ndjson(cpath, cases)
-    data = os.path.join(wd, "data")
+    data = DATA_DIR
     env = dict(os.environ, ASAN_OPTIONS="detect_leaks=0:abort_on_error=0:allocator_may_return_null=1:handle_segv=0:handle_abort=0:handle_sigbus=0:handle_sigfpe=0:handle_sigill=0",
                UBSAN_OPTIONS="print_stacktrace=1:halt_on_error=1")
     jobs = max(2, vlib.NCPU)
@@ -436,13 +445,13 @@ def run(res, tier, seed):
     # ---- counting runs: N per scenario (hooks and asan must agree)
     asan_table = ASAN_QUICK if quick else ASAN_THOROUGH
 
-    def count(exe_, tag):
+    def count(exe_, tag, keep=False):
         ns = {n: (None, None) for n in scen}
         for mode in ("inited", "raw"):
-            names = [n for n in scen if scen[n][0] == mode and (tag == "hooks" or n in asan_table)]
+            names = [n for n in scen if scen[n][0] == mode and (tag != "asan" or n in asan_table)]
             if not names:
                 continue
-            cases = [{"scenario": n, "k": 0, "steps": scen[n][1]} for n in names]
+            cases = [dict({"scenario": n, "k": 0, "steps": scen[n][1]}, **({"keepFreed": True} if keep else {})) for n in names]
             paths = run_cases(exe_, cases, wd, "count-%s-%s" % (tag, mode), mode, 600)
             for n, p in zip(names, paths):
                 ns[n] = (request_count(p), p)
@@ -450,6 +459,9 @@ def run(res, tier, seed):
     res.notes["t_build_s"] = round(time.time() - t0, 1)
     counts = count(exe, "hooks")
     counts_asan = count(exe_asan, "asan")
+    # the no-failure runs once more with returned blocks left intact (plain build): a repeated destruction then shows
+    # up as the double free it is instead of crashing on the 0xDD fill
+    counts_keep = count(exe, "hooks-keepfreed", keep=True)
     res.notes["t_count_s"] = round(time.time() - t0, 1)
     res.notes["requests_per_scenario"] = {n: counts[n][0] for n in scen}
 
@@ -527,13 +539,13 @@ def run(res, tier, seed):
                 candidates.append((what, cut, c, build, mode))
 
     # counting runs are executions too
-    for build, cn, exe_ in (("hooks", counts, exe), ("asan", counts_asan, exe_asan)):
+    for build, cn, exe_, keep in (("hooks", counts, exe, False), ("asan", counts_asan, exe_asan, False), ("hooks", counts_keep, exe, True)):
         for mode in ("inited", "raw"):
             names = [n for n in scen if scen[n][0] == mode and cn[n][1]]
             if not names:
                 continue
             paths = [cn[n][1] for n in names]
-            rejects, gen = validate_files(paths, "count-%s-%s" % (build, mode), wd)
+            rejects, gen = validate_files(paths, "count-%s-%s-%s" % (build, mode, keep), wd)
             res.notes["tv_states"] = res.notes.get("tv_states", 0) + gen
             for i, n in enumerate(names):
                 stats["executions"] += 1
@@ -544,7 +556,7 @@ def run(res, tier, seed):
                     ps["violations"] += 1
                     key = classify(ev, rejects[i])          # no request was refused: never a listed finding
                     candidates.append((rejects[i]["msg"][:400] + ((" | class " + key) if key else ""), ev[:rejects[i]["line"] + 1],
-                                       {"scenario": n, "k": 0, "steps": scen[n][1]}, build, mode))
+                                       dict({"scenario": n, "k": 0, "steps": scen[n][1]}, **({"keepFreed": True} if keep else {})), build, mode))
                 else:
                     stats["accepted"] += 1; ps["accepted"] += 1
                     if build == "hooks" and n == "streams":
